@@ -160,6 +160,16 @@ CHECKS['C05'] = (
     'spans come from the generator; insertion offsets use the tree\'s own split of a body into elements; documents over 500 characters are skipped for cost (counted)',
     '3/C05')
 
+CHECKS['C14'] = (
+    'grammar-based generation + edit-the-syntax-tree-and-re-render oracle, one fresh parse per edit',
+    'for generated documents (twin profile, strict separators) every kind of target (plain commands, \\item, plain/list/'
+    'math/verbatim environments) is renamed, re-stringed or re-argumented (slices, permutations, in-place reverse, '
+    're-assignment of the node\'s own list) on a fresh parse; the same edit is applied to the generating syntax tree '
+    'and re-rendered: text must match exactly, the search must see the change, and re-parsing must give the edited '
+    'syntax tree. Exploration.',
+    'documents over 500 characters are skipped for cost (counted); item renames and out-of-shape argument orders are judged on text and search only',
+    '3/C14')
+
 PENDING = {}
 
 
